@@ -46,6 +46,11 @@ def specs(tier):
             near['A'] = {1: [('a', pw), ('b', 1 - pw)]}
             near['C'] = {1: [('L', pw), ('U', 1 - pw)]}
             cands.append((near, [('A1', b), ('D1', 1 - b)]))
+    # terminals that begin or end with a blank (and one that is nothing but blanks)
+    blanks = dict(t0)
+    blanks['O'] = {1: [(' ', .6), ('!', .4)], 2: [(' !', .4), ('! ', .3), ('  ', .3)]}
+    blanks['A'] = {1: [('a', 1.0)], 2: [('ab', 1.0)]}
+    cands.append((blanks, [('O1', .4), ('O2', .3), ('A2', .2), ('D1', .1)]))
     # equally probable masks in one group where a later mask has L at a position at which an earlier one has U
     tied_masks = dict(t0)
     tied_masks['A'] = {2: [('ab', .6), ('cd', .4)], 3: [('abc', 1.0)]}
